@@ -19,6 +19,18 @@ Hypotheses that occur:
   constructor loop stores into the slot that `count++` has just made live;
 * `fuel`: functions that contain a loop (or call one) are translated with
   fuel; the tie holds for every sufficient amount (`W ≤ fuel` always is).
+
+Every function the translator translates is tied here (vector: size,
+capacity, `__cstl_vector_at`, at_const, at, set_capacity, reserve,
+shrink_to_fit, resize incl. both callback loops, clear, swap; string, both
+instantiations: size, capacity, reserve, `__at`, at, at_const, `__resize`,
+resize incl. the fill loop, prep_insert, insert_ch incl. its loop,
+insert_str_n, substr_prep, substr, erase, clear, swap, insert, append,
+append_ch, append_str_n).  Not translated (correspondence remains the only tie):
+`__cstl_vector_sort` / search / find / `__cstl_vector_reverse` (callbacks, untyped
+elements), the init functions, `str` (kept abstract as `objChars`), find_ch /
+find_str / find / compare(_str) (C library calls, pointer comparisons),
+insert_str / append_str / set_str (`strlen`).
 -/
 namespace Cstl.Vec.Tie
 open Cstl.Vec Cstl.Gen.VecC
